@@ -351,10 +351,10 @@ func runOne(c *mon.Case, p *prog, plan cancelPlan) {
 			rec.DoCancel("harness-backstop")
 		}
 	}()
-	out := sched.Run(func() {
+	out := sched.RunP(func() {
 		res = elv.EvalCtx(ev, p.Code, ctx, nil)
 		close(evalDone)
-	}, baseline, 4*time.Second, 100*time.Second)
+	}, baseline, 4*time.Second, 100*time.Second, rec.N)
 	retStamp := sched.Tick()
 	close(stopAsync)
 	<-asyncDone
@@ -650,9 +650,9 @@ func Spec() *mon.Spec {
 			"an evaluation that does not return is judged inside the case: interrupted + every goroutine blocked in two identical censuses 1 s apart = violation; otherwise inconclusive",
 		},
 		Phases: []mon.Phase{
-			{Name: "sync", Quick: 320, Thorough: 32000, Run: runSync, GoMaxProcs: 16, Timeout: 150 * time.Second, Batch: 16},
-			{Name: "single", Quick: 192, Thorough: 3200, Run: runSingle, GoMaxProcs: 16, Timeout: 150 * time.Second, Batch: 16},
-			{Name: "async", Quick: 160, Thorough: 16000, Run: runAsync, GoMaxProcs: 16, Timeout: 150 * time.Second, Batch: 16},
+			{Name: "sync", Quick: 320, Thorough: 4000, Run: runSync, GoMaxProcs: 16, Timeout: 150 * time.Second, Batch: 16},
+			{Name: "single", Quick: 192, Thorough: 1200, Run: runSingle, GoMaxProcs: 16, Timeout: 150 * time.Second, Batch: 16},
+			{Name: "async", Quick: 160, Thorough: 2000, Run: runAsync, GoMaxProcs: 16, Timeout: 150 * time.Second, Batch: 16},
 		},
 		HangViolation: true,
 		Floors: map[string]int{"distinct_nontrivial": 60, "sync_cancels_delivered": 40, "runs_interrupted": 90, "steps": 700,
